@@ -1,7 +1,7 @@
 """C01 — ISO dates and the day timeline (order, floor decomposition, month/leap tables, kernel shift agreement)."""
 from ._std import *
 from ..rules import units
-from ..rules.common import tri, opaque, hir_walk, node_line, fold
+from ..rules.common import tri, opaque, hir_walk, node_line, fold, same_product
 
 EXPLANATION = (
     "Static item, table and constant-agreement rules on the facts exported from /repo's current tree: the comparable "
@@ -254,7 +254,7 @@ def check_floor_path(run, fx, rs):
     decided = 0
     for name, fn, args, want in cases:
         got = fold(H.Evaluator(fx), fn, args)
-        r = tri(run, rule, name, got, got[0] in ("val", "ok") and got[1] == want, "%s = %s" % (name, show(want)[:60]),
+        r = tri(run, rule, name, got, got[0] in ("val", "ok") and same_product(got[1], want), "%s = %s" % (name, show(want)[:60]),
                 "%s = %s, floor arithmetic gives %s" % (name, show(got[1])[:80] if got[0] != "err" else got, show(want)[:80]), fn.loc)
         decided += r is not None
     run.analysed["floor_path_cells_decided"] = decided
